@@ -424,7 +424,7 @@ func (c *Ctx) baseFacts(st *State, addr string, t types.Type) {
 	key := leafKey(so)
 	for _, b := range c.basesOf(st, key) {
 		v := "(select " + b.sym + " " + addr + ")"
-		st.assume(c.wf(v, t, b.top))
+		st.assume("(=> (<= (root " + addr + ") " + b.top + ") " + c.wf(v, t, b.top) + ")")
 	}
 }
 
